@@ -9,3 +9,27 @@ long SPLIT_LIVE0; size_t SPLIT_OFF, SPLIT_CUTS, SPLIT_M0, SPLIT_SEPLEN; char SPL
 size_t RP_TN, RP_GO; const char *RP_TO;        /* replace: |to|, the ghost segment start, to's bytes */
 struct { unsigned calls; int v; } SC;
 size_t TK_TOKENS;
+/* ---- replace(): ghost functions and step macros.  N = SR.n, K = |from| = SR.k, TN = |to|.
+ * BND(off): off is a resume point of the left-to-right scan (0, then NXT(off) + K); REM(off): result bytes contributed by the text from off;
+ * POSX(off): output position of the segment that starts at off; RP_P (= GI2): an arbitrary output position; RP_GO: an arbitrary resume point. */
+_Bool __CPROVER_uninterpreted_bnd(size_t off);
+#define BND(off) __CPROVER_uninterpreted_bnd(off)
+size_t RP_TOTAL, RP_TAIL_OFF; const char *RP_OUT0;
+#define RP_N (SR.n)
+#define RP_K (SR.k)
+#define RP_P GI2
+#define POSX(off) (RP_TN == RP_K ? (size_t)(off) : REM(0) - REM(off))
+#define RP_DEF(off) __CPROVER_assume( \
+    (NXT(off) == RP_N ? REM(off) == RP_N - (off) \
+                      : (RP_K <= RP_N && (off) <= NXT(off) && NXT(off) <= RP_N - RP_K && REM(off) == (NXT(off) - (off)) + RP_TN + REM(NXT(off) + RP_K) && REM(NXT(off) + RP_K) <= REM(off))) \
+    && (NXT(off) == RP_N || BND(NXT(off) + RP_K)) \
+    && (!(RP_GO > (off) && (NXT(off) == RP_N || RP_GO < NXT(off) + RP_K)) || !BND(RP_GO)))
+#define IN_LIT(go)  (RP_P < RP_TOTAL && RP_P >= POSX(go) && RP_P - POSX(go) < NXT(go) - (go))
+#define IN_TO(go)   (RP_P < RP_TOTAL && RP_P >= POSX(go) + (NXT(go) - (go)) && RP_P - POSX(go) - (NXT(go) - (go)) < RP_TN)
+#define EXP_LIT(go) (SR.base[(go) + (RP_P - POSX(go))])
+#define EXP_TO(go)  (RP_TO[RP_P - POSX(go) - (NXT(go) - (go))])
+/* the segment that starts at the resume point go has been written (go lies before the current resume point off) and is intact */
+#define SEG_OK(go, off, buf) (!(BND(go) && (go) < (off)) || ( \
+    NXT(go) < RP_N && (go) <= NXT(go) && RP_K <= (off) && NXT(go) <= (off) - RP_K \
+    && (RP_TN == RP_K || (REM(go) <= REM(0) && REM(go) >= (NXT(go) - (go)) + RP_TN + REM(off))) \
+    && (!IN_LIT(go) || (buf)[RP_P] == EXP_LIT(go)) && (!IN_TO(go) || (buf)[RP_P] == EXP_TO(go))))
